@@ -38,7 +38,8 @@ def capB (inst : Instance) (s : State) : Bool :=
 def restB (s : State) : Bool :=
   s.machines.all (fun m => m.st == .idle && m.buffer.store.isEmpty) &&
   s.jobs.all (fun j => j.ops.all (fun o => o.st == .idle)) &&
-  s.transports.all (fun t => t.st == .idle && t.job.isNone && (match t.occ with | .dep .. => false | _ => true))
+  s.transports.all (fun t => t.st == .idle && t.job.isNone && (match t.occ with | .dep .. => false | _ => true) &&
+    t.buffer.store.isEmpty)
 
 /-- everything the structural theorems assume about a compiled (instance, initial state) pair -/
 def initOKB (inst : Instance) (s : State) : Bool :=
